@@ -67,3 +67,15 @@ Definition os_bank_UndelegateCoinsFromModuleToAccount (w : esworld) (macc a : ad
   do b <- send_all (esw_bank w) macc a cs; Ok (with_esbank w b, tt).
 Definition os_bank_SpendableCoins (w : esworld) (a : addr) : outcome (list go_coin) :=
   Ok (map (fun kv => (snd (fst kv), snd kv)) (filter (fun kv => (fst (fst kv) =? a) && (0 <? snd kv)) (bal (esw_bank w)))).
+
+(* ---- genesis (x/enterprise/genesis.go) ---- *)
+(* the four export listings: the generated accessors (the whitelist one spells each address through esw_unemb) *)
+Definition os_ent_GetAllPurchaseOrders (w : esworld) := go_st_GetAllPurchaseOrders (esw_store w).
+Definition os_ent_GetAllLockedUnds (w : esworld) := go_st_GetAllLockedUnds (esw_store w).
+Definition os_ent_GetAllSpentEFUNDs (w : esworld) := go_st_GetAllSpentEFUNDs (esw_store w).
+Definition os_ent_GetAllWhitelistedAddresses (w : esworld) := go_st_GetAllWhitelistedAddresses (esw_unemb w) (esw_store w).
+(* the module account and x/bank's GetAllBalances / x/auth's SetModuleAccount: as in EnterpriseKeeperPrims.v, over the
+   bank component (readers return an outcome in this rendering) *)
+Definition os_ent_GetEnterpriseAccount (w : esworld) : outcome go_modacc := Ok (Some ENT_MACC).
+Definition os_bank_GetAllBalances (w : esworld) (a : addr) : outcome (list go_coin) := os_bank_SpendableCoins w a.
+Definition os_acc_SetModuleAccount (w : esworld) (m : go_modacc) : outcome (esworld * unit) := Ok (w, tt).
